@@ -715,6 +715,33 @@ def history_docs():
     o.t("e2", hk)
     r = ROOT(k, o)
     add(r, "history-initial", alphabet=["e1", "e2", "e3"])
+
+    # deep history reached *indirectly* (default initial target of its parent, as attribute or <initial> element, or default
+    # target of another history) while the recorded state lies two levels below the parent
+    for form in ("attr", "elem", "via-history"):
+        m1, m2 = S("dm1"), S("dm2")
+        m = S("dm", m1, m2)
+        da = S("da")
+        hd = H("hd", deep=True)
+        hs = H("hs")
+        dp = S("dp", hd, hs, da, m)
+        hd.t(None, da)
+        hs.t(None, hd)
+        if form == "attr":
+            dp.initial = ("attr", [hd])
+        elif form == "elem":
+            dp.initial = ("elem", Trans(tgt=[hd]))
+        else:
+            dp.initial = ("attr", [hs])
+        do = S("do")
+        da.t("e1", m2)
+        m1.t("e1", da)
+        m2.t("e1", m1)
+        dp.t("e2", do)
+        do.t("e1", dp)
+        do.t("e2", hd)
+        do.t("e3", m)
+        add(ROOT(dp, do), "history-initial-deep-%s" % form, alphabet=["e1", "e2", "e3"])
     return docs
 
 
@@ -1056,6 +1083,49 @@ def c08_docs(rng, count, with_errors=True, dm="rfsm-expression", max_variants=6)
                     bl = dict(blocks)
                     bl[k] = v
                     docs.append(build(bl, "c08-%s-%d-err-%s-%d" % (dm[:4], di, k, vi)))
+    return docs
+
+
+def guard_error_docs():
+    """transition guards that fail to evaluate: the guard counts as false and error.execution is queued - during the
+    *selection*, i.e. outside any microstep (eventless and evented guards, handled and unhandled error events)"""
+    docs = []
+
+    def add(root, name, **kw):
+        docs.append(Doc(root, family="guarderr", name=name, **kw))
+
+    for v in (0, 1):
+        # eventless guard fails while the internal queue is empty; the error event leaves the state
+        a, b, c = S("ga"), S("gb"), S("gc")
+        a.t(None, c, cond_=cond("err", v=v))
+        a.t("error.execution", b, body=[mark("err-seen")])
+        a.t("e1", c)
+        b.t("e1", a)
+        b.t("e2", c)
+        c.t("e1", b)
+        add(ROOT(a, b, c), "eventless-guard-error-%d" % v, alphabet=["e1", "e2"])
+        # evented guard fails: the next transition in document order is taken, the error event follows the step
+        a, b, c = S("ha"), S("hb"), S("hc")
+        a.t("e1", c, cond_=cond("err", v=v))
+        a.t("e1", b, body=[raise_("r1")])
+        b.t("error.execution", None, body=[mark("err-in-b")])
+        b.t("r1", None, body=[mark("r1-in-b")])
+        b.t("e1", a)
+        c.t("e1", a)
+        add(ROOT(a, b, c), "evented-guard-error-%d" % v, alphabet=["e1", "e2"])
+        # eventless guard fails in a region of a parallel while the other region raises: order of the mixed enqueues
+        p1, p2, q1, q2 = S("p1"), S("p2"), S("q1"), S("q2")
+        rp, rq = S("rp", p1, p2), S("rq", q1, q2)
+        par = P("gp", rp, rq)
+        o = S("go")
+        p1.t(None, p2, cond_=cond("err", v=v))
+        p1.t("error.execution", p2, body=[mark("err-p1")])
+        q1.t("e1", q2, body=[raise_("r1")])
+        q2.t("r1", q1)
+        p2.t("e1", p1)
+        par.t("e2", o)
+        o.t("e1", par)
+        add(ROOT(par, o), "parallel-guard-error-%d" % v, alphabet=["e1", "e2"])
     return docs
 
 
